@@ -848,22 +848,72 @@ def r20_fold(text, acc_type=None):
 
 @rule('R21')
 def r21_map_collect(text):
-    """let NAME: Vec<_> = X.iter().map(|P| { BODY }).collect();   ->
-         let mut NAME = Vec::new(); for P in X.iter() { let vt_e = { BODY }; NAME.push(vt_e); }
-    (definition of map + collect into a Vec: the closure is applied once per element, in order)"""
-    m = re.search(r'([ \t]*)let (%s): Vec<_> = (%s)\s*\.iter\(\)\s*\.map\(\|(%s)\| \{' % (IDENT, IDENT, IDENT), text)
+    """let NAME: Vec<T> = X.iter().map(|P| BODY).collect();   ->
+         let mut NAME: Vec<T> = Vec::new(); for P in X.iter() { let vt_e = { BODY }; NAME.push(vt_e); }
+    (definition of map + collect into a Vec: the closure is applied once per element, in order; BODY a block or an
+    expression; `Vec<_>` loses its annotation)"""
+    m = re.search(r'([ \t]*)let (%s): (Vec<[^=]*?>) = (%s)\s*\.iter\(\)\s*\.map\(\|(%s)\| ' % (IDENT, IDENT, IDENT), text)
     if not m:
         return text, 0
-    ind, name, x, p = m.groups()
-    o = m.end() - 1
-    c = _balanced(text, o, '{', '}')
-    tail = re.match(r'\)\s*\.collect\(\);', text[c + 1:])
+    ind, name, ty, x, p = m.groups()
+    k = m.end()
+    if text[k] == '{':
+        c = _balanced(text, k, '{', '}')
+        body = text[k:c + 1]
+        after = c + 1
+    else:
+        d = 0
+        c = k
+        while c < len(text):
+            ch = text[c]
+            if ch in '([{':
+                d += 1
+            elif ch in ')]}':
+                if d == 0:
+                    break
+                d -= 1
+            c += 1
+        body = '{ %s }' % text[k:c].strip()
+        after = c
+    tail = re.match(r'\)\s*\.collect\(\);', text[after:])
     if not tail:
         return text, 0
-    body = text[o:c + 1]
-    new = ('%slet mut %s = Vec::new();\n%sfor %s in %s.iter() {\n%s    let vt_e = %s;\n%s    %s.push(vt_e);\n%s}'
-           % (ind, name, ind, p, x, ind, body, ind, name, ind))
-    return text[:m.start()] + new + text[c + 1 + tail.end():], 1
+    ann = '' if ty == 'Vec<_>' else ': ' + ty
+    new = ('%slet mut %s%s = Vec::new();\n%sfor %s in %s.iter() {\n%s    let vt_e = %s;\n%s    %s.push(vt_e);\n%s}'
+           % (ind, name, ann, ind, p, x, ind, body, ind, name, ind))
+    return text[:m.start()] + new + text[after + tail.end():], 1
+
+
+@rule('R6_any')
+def r6_any(text):
+    """X.iter().any(|v| BODY)  ->  vt_any(&X, |v: &usize| -> bool { BODY })     (the closure is real text with explicit types)"""
+    n = 0
+    while True:
+        m = re.search(r'\b(%s)\.iter\(\)\.any\(\|(%s)\| ' % (IDENT, IDENT), text)
+        if not m:
+            break
+        k = m.end()
+        d = 0
+        c = k
+        while c < len(text):
+            ch = text[c]
+            if ch in '([{':
+                d += 1
+            elif ch in ')]}':
+                if d == 0:
+                    break
+                d -= 1
+            c += 1
+        body = text[k:c].strip()
+        text = text[:m.start()] + 'vt_any(&%s, |%s: &usize| -> bool { %s })' % (m.group(1), m.group(2), body) + text[c + 1:]
+        n += 1
+    return text, n
+
+
+@rule('R6_sum')
+def r6_sum(text):
+    """X.iter().sum()  ->  vt_sum(&X)"""
+    return re.subn(r'\b(%s)\.iter\(\)\.sum\(\)' % IDENT, r'vt_sum(&\1)', text)
 
 
 @rule('closure_annot0')
@@ -1212,3 +1262,14 @@ def r32_zip_map_sum(text):
     hoist = ('%slet vt_sum = { let mut vt_acc: usize = 0; for vt_i in 0..vt_min(%s.len(), %s.len()) { let (%s, %s) = (&%s[vt_i], &%s[vt_i]); vt_acc = vt_acc + %s; } vt_acc };'
              % (lead, a, b, p, t, a, b, expr))
     return text[:j] + hoist + prefix + 'vt_sum' + text[end:], 1
+
+
+@rule('R11_open')
+def r11_open(text, *exprs):
+    """&S[a..] on a `str` S  ->  vt_str_slice(S, a, vt_str_len(S))     (an open range ends at the string's byte length)"""
+    n = 0
+    for e in exprs:
+        pat = re.compile(r'&' + re.escape(e) + r'\[([A-Za-z_][A-Za-z0-9_\.\(\)]*)\.\.\]')
+        text, k = pat.subn(lambda m: 'vt_str_slice(%s, %s, vt_str_len(%s))' % (e, m.group(1), e), text)
+        n += k
+    return text, n
